@@ -97,6 +97,15 @@ class PE:
             folded = self._fold_host(e, fn, env)
             if folded is not None:
                 return folded
+            if fn in ("min", "max") and len(e.args) == 2 and not e.keywords:
+                a, b = self.ev(e.args[0], env), self.ev(e.args[1], env)
+                num = lambda v: v[0] == "c" and isinstance(v[2], (int, float)) and not isinstance(v[2], bool)
+                if num(a) and num(b):
+                    return _c(min(a[2], b[2]) if fn == "min" else max(a[2], b[2]))
+                # a length is never negative: min(0, len(x)) is 0, max(0, len(x)) is the length
+                for k, o in ((a, b), (b, a)):
+                    if num(k) and k[2] == 0 and o[0] == "sym" and o[1].startswith("len("):
+                        return _c(0) if fn == "min" else o
             callee = self._callee(e)
             if callee is not None and self.depth < 4 and not e.keywords and not any(isinstance(a, ast.Starred) for a in e.args):
                 vals = [self.ev(a, env) for a in e.args]
